@@ -401,6 +401,7 @@ def _confine(w, h, res):
         kids0 = {p: [c.pid for c in k.procs.values() if c.orig_ppid == p and c.ppid == p and c.state == 'running']
                  for p in workers}
         stopping0 = {p: bool(getattr(w.arb.get_watcher(name).processes.get(p), 'stopping', False)) for p in workers}
+        running0 = {p: k.procs[p].state == 'running' for p in workers}
         vanished = []
         if r.get('vanish') and workers:
             off, idx = r['vanish']
@@ -484,7 +485,7 @@ def _confine(w, h, res):
                         first.setdefault(e[2], e[3])
                 want = set()
                 for p in addressed:
-                    if stopping0.get(p) or k.procs[p].state != 'running':
+                    if stopping0.get(p) or not running0.get(p):
                         continue
                     want.add(p)
                     if wobj.stop_children:
